@@ -149,9 +149,10 @@ def ranks(comp, role):
 # ---------------------------------------------------------------------------------------------------------------------
 CX_Q0 = {"A": {1: 1.0e-33, 2: 2.3e-33, 3: 5.9e-33},      # increasing with m
          "B": {1: 7.1e-33, 2: 1.9e-33, 3: 0.31e-33},     # decreasing: ground largest
-         "C": {1: 2.0e-33, 2: 6.1e-33, 3: 0.9e-33}}      # ground in the middle
-POP_K0 = {"A": {2: 0.035, 3: 0.008}, "B": {2: 2.7, 3: 1.3}, "C": {2: 0.011, 3: 0.9}}
-BES_G0 = {"A": 3.1e-34, "B": 0.7e-34, "C": 1.3e-34}
+         "C": {1: 2.0e-33, 2: 6.1e-33, 3: 0.9e-33},      # ground in the middle
+         "D": {1: 3.0e-33, 2: 0.0, 3: 1.1e-33}}          # an excited metastable that is populated but does not emit (null coefficient)
+POP_K0 = {"A": {2: 0.035, 3: 0.008}, "B": {2: 2.7, 3: 1.3}, "C": {2: 0.011, 3: 0.9}, "D": {2: 0.6, 3: 0.2}}
+BES_G0 = {"A": 3.1e-34, "B": 0.7e-34, "C": 1.3e-34, "D": 2.2e-34}
 
 
 def cx_coeff(prov, m, rcharge, energy, temp, dens, zeff, bmag):
